@@ -13,7 +13,15 @@ pub struct VariableUse {
 
 impl VariableUse {
     pub fn new(meta: &Meta, name: &VariableName, access: &[AccessType]) -> VariableUse {
-        VariableUse { meta: meta.clone(), name: name.clone(), access: access.to_owned() }
+        // Do not copy the variable knowledge of the node: it consists of variable
+        // uses which in turn hold the metadata (and variable knowledge) of the
+        // nodes they were cached from, so each time variable use is re-cached
+        // (e.g. once per phi argument) the nesting would grow by one level.
+        let mut use_meta = Meta::new(&meta.location, &meta.file_id);
+        *use_meta.type_knowledge_mut() = meta.type_knowledge().clone();
+        *use_meta.value_knowledge_mut() = meta.value_knowledge().clone();
+        *use_meta.degree_knowledge_mut() = meta.degree_knowledge().clone();
+        VariableUse { meta: use_meta, name: name.clone(), access: access.to_owned() }
     }
 
     pub fn meta(&self) -> &Meta {
